@@ -462,7 +462,7 @@ def reelect_phase(cl, rng, trace, state, variant=None):
     # the cut-off leader keeps accepting commands; its minority acknowledges them
     for k in range(rng.randint(1, 3)):
         state['ncmd'] += 1
-        do(('Submit', L, 'c%d' % state['ncmd'], dict({'kind': 'op'}, **({'size': rng.choice(state['sizes'])} if state.get('sizes') else {}))))
+        do(('Submit', L, 'c%d' % state['ncmd'], dict({'kind': 'op'}, **({'size': rng.choice(state['sizes'])} if state.get('sizes') and rng.random() < 0.65 else {}))))
         do(('Tick', L, 'z'))
         deliver_within(set(minority), rounds=3)
     for m in minority:
@@ -495,6 +495,12 @@ def reelect_phase(cl, rng, trace, state, variant=None):
         for r in range(3):
             do(('Tick', B, 'h'))
             deliver_within(set(majority), rounds=4)
+            if r == 0 and state.get('sizes'):
+                # the new leader's own commands take the positions of the cut-off leader's unreplicated ones
+                for _k in range(rng.randint(1, 2)):
+                    state['ncmd'] += 1
+                    do(('Submit', B, 'c%d' % state['ncmd'], dict({'kind': 'op'}, **({'size': rng.choice(state['sizes'])} if rng.random() < 0.8 else {}))))
+                do(('Tick', B, 'z'))
         rest = list(voters)
     for a in rest:
         for b in rest:
